@@ -48,6 +48,13 @@ PROFILES = [
     dict(names="adversarial", **{"async": 1}, types=8),
     dict(names="simple", **{"async": 1}, funcs=6, max_depth=4),
 ]
+# one hand-written world per named finding of the pinned tree (exhibited at every seed)
+DIRECTED = [
+    ("kebab-world-export-with-post-return", "w", "package a:b;\nworld w { export foo-bar: func() -> string; export baz-qux: func(a: list<u8>) -> list<string>; }\n"),
+    ("futures-in-several-functions", "w", "package a:b;\ninterface i { f1: func(x: future<u8>); f2: func(x: future<u16>) -> stream<u8>; f3: func(x: stream<string>); }\nworld w { import i; export i; }\n"),
+    ("async-export-returning-string", "w", "package a:b;\nworld w { export run-it: async func() -> string; }\n"),
+    ("world-level-resource", "w", "package a:b;\nworld w { resource x; export f: func() -> x; }\n"),
+]
 ASYNC_TYPE_RULE = "requires an async function type"
 
 
@@ -134,6 +141,10 @@ def plan(tier, seed, work):
     for name, world, text in compz.FIXED_WORLDS:
         p = compz.materialise(work, "fixed-" + name, text)
         add("fixed", name, p, world, (), {"async": False, "error-context": False}, every)
+    for name, world, text in DIRECTED:
+        p = compz.materialise(work, "directed-" + name, text)
+        info = compz.cz(["validate", "--wit", p])
+        add("directed", name, p, world, info.get("tags", []), compz.random_config(info.get("tags", [])), [(b, "default") for b in backends])
     entries = compz.corpus()
     stats["corpus_entries"] = len(entries)
     for i, (name, path, cfg) in enumerate(entries):
